@@ -63,9 +63,9 @@ FsBad(op, g) ==
 
 ExitBad(r) ==
   LET f == [final |-> r.final]
-      dmg == SetOf(r.damaged) IN
-  (IF ~C08_LatchedIsRecoverableOn(f, r.latched, dmg) THEN {"LatchedIsRecoverable"} ELSE {})
-  \cup (IF ~C08_NoCorruptFinalNameOn(f, dmg) THEN {"NoCorruptFinalName"} ELSE {})
+      dm == SetOf(r.damaged) IN
+  (IF ~C08_LatchedIsRecoverableOn(f, r.latched, dm) THEN {"LatchedIsRecoverable"} ELSE {})
+  \cup (IF ~C08_NoCorruptFinalNameOn(f, dm) THEN {"NoCorruptFinalName"} ELSE {})
   \cup (IF r.restart /\ r.latched0 # "none" /\ r.good0
            /\ ~(r.acquires = 0 /\ r.signedOk /\ r.signedGuid = r.latched0) THEN {"RestartUsesLocal"} ELSE {})
   \cup (IF r.restart /\ ~r.killed /\ ~(r.signedOk /\ r.latched # "none" /\ r.signedGuid = r.latched)
